@@ -74,6 +74,9 @@ def build(case):
             ops.append(op)
         sc['ops'] = ops
         cfg['ping'] = False
+        if cfg.get('disc_emits'):
+            cfg['coroutine'] = True     # awaited inline, like the threaded
+            #                             twin runs it inline
     if sub == 'c06':
         cfg['malformed_acks'] = True
         cfg['raise_by_content'] = True
